@@ -242,6 +242,7 @@ type Fixture struct {
 }
 
 var useClock int64
+var fixtureSerial int
 
 // shardPick returns n entries of all, chosen by VERIF_SEED and the shard number, so that each shard process
 // works with a few configurations (few proxies alive) while the shards together cover the whole list.
@@ -371,6 +372,10 @@ func newFixture(cfg sut.Config, masters, reps, spare int, variant string) (*Fixt
 	topo.Install(cl)
 	topo.SetInfoFromTopo(cl)
 	cl.SetPassword(cfg.Password)
+	fixtureSerial++
+	if cfg.Password != "" && fixtureSerial%2 == 0 {
+		cl.SetHandshakeGap(3 * time.Millisecond)
+	}
 	cfg.Servers = nil
 	for i := 0; i < masters && i < 2; i++ {
 		cfg.Servers = append(cfg.Servers, cl.Nodes[i].Addr)
@@ -393,6 +398,10 @@ func newFixture(cfg sut.Config, masters, reps, spare int, variant string) (*Fixt
 func startFixtureWith(cl *fakecluster.Cluster, topo *fakecluster.Topo, cfg sut.Config, seeds []int, excluded map[int]bool) (*Fixture, error) {
 	topo.Install(cl)
 	cl.SetPassword(cfg.Password)
+	fixtureSerial++
+	if cfg.Password != "" && fixtureSerial%2 == 0 {
+		cl.SetHandshakeGap(3 * time.Millisecond) // AUTH's and READONLY's +OK arrive in separate reads
+	}
 	cfg.Servers = nil
 	for _, i := range seeds {
 		cfg.Servers = append(cfg.Servers, cl.Nodes[i].Addr)
